@@ -507,6 +507,10 @@ func sliceWithControl(v ssa.Value, depth int, out map[ssa.Value]bool) {
 			}
 		}
 		call, ok := w.(*ssa.Call)
+		if ex, isEx := w.(*ssa.Extract); isEx && !ok {
+			// one of several results (`data, ok := cache.previousData(uri, id)`)
+			call, ok = ex.Tuple.(*ssa.Call)
+		}
 		if !ok || depth >= 3 {
 			continue
 		}
@@ -514,6 +518,7 @@ func sliceWithControl(v ssa.Value, depth int, out map[ssa.Value]bool) {
 		if cal == nil || cal.Blocks == nil || !inModule(cal) {
 			continue
 		}
+		nConds := 0
 		for _, rb := range cal.Blocks {
 			if len(rb.Instrs) == 0 {
 				continue
@@ -522,8 +527,17 @@ func sliceWithControl(v ssa.Value, depth int, out map[ssa.Value]bool) {
 				continue
 			}
 			for _, cc := range controlCondsPol(rb) {
+				nConds++
 				if !out[cc.Cond] {
 					sliceWithControl(cc.Cond, depth+1, out)
+				}
+			}
+		}
+		// the callee's tests look at its parameters: what the caller passes decides as well
+		if nConds > 0 {
+			for _, a := range call.Call.Args {
+				if !out[a] {
+					sliceWithControl(a, depth+1, out)
 				}
 			}
 		}
@@ -1091,7 +1105,7 @@ func ruleLoaderCycle(c *Ctx) {
 			nErr++
 			hasRange := false
 			if cn.rng != nil {
-				for w := range sliceUp(ci, cn.rng, f) {
+				for w := range sliceUpN(ci, cn.rng, f, 6) { // a constructor of errors may sit several helpers below the loop over the directives
 					var bt types.Type
 					var name string
 					switch x := w.(type) {
